@@ -3,6 +3,7 @@ package main
 // rules_isolation.go: C09 — locations are isolated except through declared parents (GLOBALS; ANC via TERM; NS-ARG; CRON-KEY).
 
 import (
+	"go/types"
 	"go/token"
 	"sort"
 	"strings"
@@ -100,6 +101,8 @@ func ruleGlobals(w *World, r *Report) {
 		key := "global=" + k
 		if reason, ok := globalsAllowed[k]; ok {
 			r.exempt("GLOBALS", key, "", reason+" (writers: "+strings.Join(gw[k], ", ")+")")
+		} else if why := inputFreeMemo(w, k, gw[k]); why != "" {
+			r.ok("GLOBALS", key, "", why)
 		} else {
 			r.violation("GLOBALS", key, "", "package-level variable written by "+strings.Join(gw[k], ", ")+" is not in the table of allowed process-wide state: mutable state shared by all locations")
 		}
@@ -116,6 +119,153 @@ func ruleGlobals(w *World, r *Report) {
 			}
 		}
 	}
+}
+
+// inputFreeMemo: a package-level variable outside the table is still no channel between locations when every function
+// that writes it has no inputs at all (no receiver, no parameters, no captured variables: what it computes cannot depend
+// on which location asked) and writes it with a mutex held that is part of the variable itself.
+func inputFreeMemo(w *World, global string, writers []string) string {
+	byName := map[string]*ssa.Function{}
+	for _, fn := range w.Funcs {
+		byName[fname(fn)] = fn
+	}
+	for _, name := range writers {
+		fn := byName[name]
+		if fn == nil || len(fn.Params) > 0 || len(fn.FreeVars) > 0 || fn.Signature.Recv() != nil {
+			return ""
+		}
+		isOwn := func(v ssa.Value) bool {
+			root := addrRoot(v)
+			g, ok := root.(*ssa.Global)
+			if !ok || g.Pkg == nil {
+				return false
+			}
+			return strings.TrimPrefix(strings.TrimPrefix(g.Pkg.Pkg.Path(), modPath), "/")+"."+g.Name() == global
+		}
+		var locks []ssa.Instruction
+		allInstrs(fn, func(in ssa.Instruction) {
+			c := callOf(in)
+			if c == nil || c.StaticCallee() == nil || len(c.Args) == 0 {
+				return
+			}
+			if _, isDefer := in.(*ssa.Defer); isDefer {
+				return
+			}
+			f := c.StaticCallee()
+			if f.Pkg != nil && f.Pkg.Pkg.Path() == "sync" && f.Name() == "Lock" && isOwn(c.Args[0]) {
+				locks = append(locks, in)
+			}
+		})
+		bad := false
+		allInstrs(fn, func(in ssa.Instruction) {
+			st, ok := in.(*ssa.Store)
+			if !ok || !isOwn(st.Addr) {
+				return
+			}
+			held := false
+			for _, l := range locks {
+				if instrDominates(l, in) {
+					held = true
+				}
+			}
+			if !held {
+				bad = true
+			}
+		})
+		if bad || len(locks) == 0 {
+			return ""
+		}
+		// what it hands out is shared by everybody who asks: no caller writes through it
+		if ptrResult(fn) {
+			if where := sharedResultWritten(w, fn); where != "" {
+				return ""
+			}
+		}
+	}
+	return "written only by " + strings.Join(writers, ", ") + ", which has no inputs (what it keeps cannot depend on the location that asked) and writes with the variable's own mutex held"
+}
+
+func ptrResult(fn *ssa.Function) bool {
+	rs := fn.Signature.Results()
+	for i := 0; i < rs.Len(); i++ {
+		switch rs.At(i).Type().Underlying().(type) {
+		case *types.Pointer, *types.Map, *types.Slice:
+			return true
+		}
+	}
+	return false
+}
+
+// sharedResultWritten: does a caller of fn write through what fn handed out — a store through the pointer, a callee
+// that modifies that argument, or a decoder (json.Unmarshal, Decoder.Decode) let loose on a struct the pointer was put
+// into (encoding/json decodes into the struct a pointer field already points to)?
+func sharedResultWritten(w *World, fn *ssa.Function) string {
+	mod := newModEngine(w, nil)
+	where := ""
+	for _, e := range w.Callers(fn) {
+		caller := e.Caller.Func
+		if isTestFile(w, caller) || len(caller.Blocks) == 0 {
+			continue
+		}
+		res, ok := e.Site.(*ssa.Call)
+		if !ok {
+			continue
+		}
+		tainted := map[ssa.Value]bool{res: true}
+		holders := map[ssa.Value]bool{} // allocations a field of which holds the pointer
+		for changed := true; changed; {
+			changed = false
+			allInstrs(caller, func(in ssa.Instruction) {
+				switch x := in.(type) {
+				case *ssa.Store:
+					if tainted[x.Val] {
+						if root := addrRoot(x.Addr); root != nil && !holders[root] {
+							holders[root], changed = true, true
+						}
+					}
+				case *ssa.Phi:
+					for _, ed := range x.Edges {
+						if tainted[ed] && !tainted[x] {
+							tainted[x], changed = true, true
+						}
+					}
+				case *ssa.Extract:
+					if tainted[x.Tuple] && !tainted[x] {
+						tainted[x], changed = true, true
+					}
+				}
+			})
+		}
+		allInstrs(caller, func(in ssa.Instruction) {
+			if where != "" {
+				return
+			}
+			switch x := in.(type) {
+			case *ssa.Store:
+				if root := addrRoot(x.Addr); root != x.Addr && tainted[root] {
+					where = w.PosOf(in)
+				}
+			case ssa.CallInstruction:
+				c := x.Common()
+				f := c.StaticCallee()
+				for i, arg := range c.Args {
+					a := arg
+					if mi, isMI := a.(*ssa.MakeInterface); isMI {
+						a = mi.X
+					}
+					if f != nil && f.Pkg != nil && f.Pkg.Pkg.Path() == "encoding/json" && (f.Name() == "Unmarshal" || f.Name() == "Decode") && (holders[addrRoot(a)] || tainted[a]) {
+						where = w.PosOf(in)
+					}
+					if f != nil && w.IsRulio(f) && tainted[a] && i < len(f.Params) {
+						if m, _ := mod.mutatesParam(f, i); m {
+							where = w.PosOf(in)
+						}
+					}
+				}
+			}
+		})
+	}
+	return where
 }
 
 func init() {
